@@ -230,11 +230,9 @@ theorem Q_step (g : Globals) (T : Tables) (rfn S : Bool) (fuel : Nat) (hph : T.e
                 else
                   have newObj := setKV redactedKey J.null newObj;
                   pure (ForInStep.yield newObj);
-            if rfn = true then
-              if (!isOp) = true then do
-                let __do_lift ← HashName g T k_1
-                jp2 () __do_lift
-              else jp2 () k_1
+            if (rfn && !isOp) = true then do
+              let __do_lift ← HashName g T k_1
+              jp2 () __do_lift
             else jp2 () k_1;
           jp1 () (pairOf co).2 (pairOf co).1) : Option (ForInStep (List (Str × J)))) =
         some (ForInStep.yield (setKV ((Ctx.mk T (absCfg g) rfn).qKey co k) ((Ctx.mk T (absCfg g) rfn).QVal S co k (kp ++ [k]) v) acc)) := by
